@@ -59,6 +59,12 @@ def arg_descs(contract, fork_tag, model, hints=None):
             out[name] = {"kind": "selfc", "compiled": "+compiled" in (tag or "")}
         elif contract["params"][name] == "text":
             out[name] = {"kind": "text"}
+        elif tag in ("True", "False"):
+            out[name] = {"kind": "bool", "value": tag == "True"}
+        elif tag and tag.startswith("const:"):
+            out[name] = {"kind": "int", "value": int(tag.split(":")[1])}
+        elif tag == "int_outside_2_16":
+            out[name] = {"kind": "int", "value": int(mv) if mv not in (None,) and _isint(mv) else 0}
         elif tag == "new":
             out[name] = {"kind": "new"}
         elif tag and tag.startswith("classobj"):
